@@ -212,7 +212,7 @@ def check(prop, tier, jobs, write_evidence=True):
         k = hits[0][0]
         print(f"KNOWN-FINDING: property={prop} {name} {k.get('summary', '')}")
     baseline_info = evidence.load_baseline()
-    lost = evidence.lost_coverage(prop, obligations, baseline_info) if not oor and not crashes else []
+    lost = evidence.lost_coverage(prop, {**obligations, **bounded_obs}, baseline_info) if not oor and not crashes else []
     for name, rs in violations:
         path = replay.make_replay(prop, name, rs, baseline_info)
         suffix = "" if path.endswith(".py") else " no-failing-input-found"
